@@ -140,7 +140,12 @@ def buffers_drained(fx, cfgname="A"):
                               "read in a loop: %s (fill-then-write)" % why, cfg=cfgname))
                 continue
             reach = cfg.reach([bi]) & body
-            ws = [b for (b, _t, _h) in ro.performers(fx, f, WRITERS) if b in reach]
+            allw = ro.performers(fx, f, WRITERS)
+            if not allw:
+                # the function writes nothing at all: it reads to compare, hash or parse, not to copy
+                notes.append(dict(site=q.loc_of(t), fn=f.path, undecided="the function performs no write: not a copy loop"))
+                continue
+            ws = [b for (b, _t, _h) in allw if b in reach]
             ok = bool(ws)
             obs.append(Ob("R-SHORT", mkkey("R-SHORT", f.path, key, n, "buffer-drained"), ok, q.loc_of(t), f.path,
                           "read in a loop into %s on every iteration: %s" % (
